@@ -40,7 +40,7 @@ def _render_tag(t: Toks) -> str:
     indent = int(t.next())
     eol = p_str(t)
     obj = realize(n)
-    return ok_str(obj.get_html_string(indent, eol))
+    return ok_str(str(obj.get_html_string(indent, eol)))
 
 
 @op("render_list")
@@ -51,7 +51,7 @@ def _render_list(t: Toks) -> str:
     aw = p_bool(t)
     esc = p_bool(t)
     obj = realize_list(ns)
-    return ok_str(obj.get_html_string(indent, eol, add_ws=aw, _escape_strings=esc))
+    return ok_str(str(obj.get_html_string(indent, eol, add_ws=aw, _escape_strings=esc)))
 
 
 def _module(name: str):
@@ -140,4 +140,4 @@ def _render_tag_via(t: Toks) -> str:
     indent = int(t.next())
     eol = p_str(t)
     obj = realize_via(n, mode)
-    return ok_str(obj.get_html_string(indent, eol))
+    return ok_str(str(obj.get_html_string(indent, eol)))
